@@ -393,7 +393,7 @@ func (c *ClientConn) SendUpstreamMetadata(ctx context.Context, msg *message.Upst
 	if err != nil {
 		return nil, err
 	}
-	return res.(*message.UpstreamMetadataAck), nil
+	return responseAs[*message.UpstreamMetadataAck](res)
 }
 
 func (c *ClientConn) sendPing() (*message.Pong, error) {
@@ -405,7 +405,7 @@ func (c *ClientConn) sendPing() (*message.Pong, error) {
 	if err != nil {
 		return nil, err
 	}
-	return resp.(*message.Pong), nil
+	return responseAs[*message.Pong](resp)
 }
 
 // SubscribeUpstreamChunkAckは、UpstreamChunkAckを待ち受けます。
@@ -452,7 +452,10 @@ func (c *ClientConn) SendUpstreamOpenRequest(ctx context.Context, req *message.U
 		return nil, err
 	}
 
-	res := resp.(*message.UpstreamOpenResponse)
+	res, err := responseAs[*message.UpstreamOpenResponse](resp)
+	if err != nil {
+		return nil, err
+	}
 	c.openUpstream(ctx, req.QoS, res.AssignedStreamID, res.AssignedStreamIDAlias)
 
 	return res, nil
@@ -468,7 +471,10 @@ func (c *ClientConn) SendUpstreamResumeRequest(ctx context.Context, req *message
 		return nil, err
 	}
 
-	res := resp.(*message.UpstreamResumeResponse)
+	res, err := responseAs[*message.UpstreamResumeResponse](resp)
+	if err != nil {
+		return nil, err
+	}
 
 	c.openUpstream(ctx, qoS, req.StreamID, res.AssignedStreamIDAlias)
 
@@ -491,7 +497,11 @@ func (c *ClientConn) SendUpstreamChunk(ctx context.Context, req *message.Upstrea
 // SendUpstreamCloseRequestは、UpstreamCloseRequestを送信します。
 func (c *ClientConn) SendUpstreamCloseRequest(ctx context.Context, req *message.UpstreamCloseRequest) (*message.UpstreamCloseResponse, error) {
 	req.RequestID = message.RequestID(c.idGenerator.Next())
-	resp, err := c.sendRequest(ctx, req)
+	r, err := c.sendRequest(ctx, req)
+	if err != nil {
+		return nil, err
+	}
+	resp, err := responseAs[*message.UpstreamCloseResponse](r)
 	if err != nil {
 		return nil, err
 	}
@@ -499,7 +509,7 @@ func (c *ClientConn) SendUpstreamCloseRequest(ctx context.Context, req *message.
 	defer c.upstreams.mu.Unlock()
 	alias, ok := c.upstreams.aliases[req.StreamID]
 	if !ok {
-		return resp.(*message.UpstreamCloseResponse), nil
+		return resp, nil
 	}
 
 	delete(c.upstreams.aliases, req.StreamID)
@@ -512,7 +522,7 @@ func (c *ClientConn) SendUpstreamCloseRequest(ctx context.Context, req *message.
 		delete(c.upstreams.messageWriters, alias)
 	}
 
-	return resp.(*message.UpstreamCloseResponse), nil
+	return resp, nil
 }
 
 // SubscribeDownstreamChunkは、指定したストリームIDエイリアス、QoSのDownstreamChunkを待ち受けます。
@@ -595,7 +605,10 @@ func (c *ClientConn) SendDownstreamResumeRequest(ctx context.Context, req *messa
 	if err != nil {
 		return nil, err
 	}
-	resp := res.(*message.DownstreamResumeResponse)
+	resp, err := responseAs[*message.DownstreamResumeResponse](res)
+	if err != nil {
+		return nil, err
+	}
 
 	c.downstreams.mu.Lock()
 	defer c.downstreams.mu.Unlock()
@@ -611,7 +624,10 @@ func (c *ClientConn) SendDownstreamOpenRequest(ctx context.Context, req *message
 	if err != nil {
 		return nil, err
 	}
-	resp := res.(*message.DownstreamOpenResponse)
+	resp, err := responseAs[*message.DownstreamOpenResponse](res)
+	if err != nil {
+		return nil, err
+	}
 
 	c.downstreams.mu.Lock()
 	defer c.downstreams.mu.Unlock()
@@ -623,7 +639,11 @@ func (c *ClientConn) SendDownstreamOpenRequest(ctx context.Context, req *message
 // SendDownstreamCloseRequestは、DownstreamCloseRequestを送信します。
 func (c *ClientConn) SendDownstreamCloseRequest(ctx context.Context, req *message.DownstreamCloseRequest) (*message.DownstreamCloseResponse, error) {
 	req.RequestID = message.RequestID(c.idGenerator.Next())
-	resp, err := c.sendRequest(ctx, req)
+	r, err := c.sendRequest(ctx, req)
+	if err != nil {
+		return nil, err
+	}
+	resp, err := responseAs[*message.DownstreamCloseResponse](r)
 	if err != nil {
 		return nil, err
 	}
@@ -632,7 +652,7 @@ func (c *ClientConn) SendDownstreamCloseRequest(ctx context.Context, req *messag
 
 	alias, ok := c.downstreams.aliases[req.StreamID]
 	if !ok {
-		return resp.(*message.DownstreamCloseResponse), nil
+		return resp, nil
 	}
 	delete(c.downstreams.aliases, req.StreamID)
 
@@ -652,7 +672,7 @@ func (c *ClientConn) SendDownstreamCloseRequest(ctx context.Context, req *messag
 		delete(c.downstreams.metadata, alias)
 	}
 
-	return resp.(*message.DownstreamCloseResponse), nil
+	return resp, nil
 }
 
 // SendDownstreamDataPointsAckは、DownstreamMetadataAckを送信します。
@@ -698,6 +718,17 @@ func (c *ClientConn) ReceiveDownstreamCall(ctx context.Context) (*message.Downst
 		}
 		return msg, nil
 	}
+}
+
+// responseAs converts the reply that was routed by request id into the response type the
+// caller expects. The broker controls which message type answers an id, so this must not panic.
+func responseAs[T message.Request](res message.Request) (T, error) {
+	r, ok := res.(T)
+	if !ok {
+		var zero T
+		return zero, errors.Errorf("unexpected response %T: %w", res, errors.ErrMalformedMessage)
+	}
+	return r, nil
 }
 
 func (c *ClientConn) sendRequest(ctx context.Context, req message.Request) (message.Request, error) {
